@@ -40,10 +40,12 @@ Definition no_soap (s : string) : option string := None.
 Definition tab_sha1 (t : list (string * string)) (e : string) : string :=
   match assoc e t with Some d => d | None => "" end.
 
-(* one step on a long-lived resolver (a real Saml2Client / Server) *)
+(* one step on one of the long-lived resolvers of the process (real Saml2Client / Server objects; rcv numbers them) *)
 Inductive fstep :=
-| FLoad (fed : federation) (sm : fsourcemap)         (* Entity(config with these sources) or reload_metadata; self.sourceid afterwards *)
-| FResolve (eid handle : string) (idx : nat) (r : role) (art : string) (dest : ares).
+| FLoad (rcv : nat) (cfg : mdconfig) (sm : fsourcemap)
+    (* Entity(config with these named sources), reload_metadata, or MetadataStore.reload + a new Entity on the same
+       Config; a reload that FAILED is written as a load of the configuration the resolver had; self.sourceid afterwards *)
+| FResolve (rcv : nat) (eid handle : string) (idx : nat) (r : role) (art : string) (dest : ares).
     (* create_artifact / use_artifact at the issuer, apply_binding(HTTP-Artifact), SAMLart read from the URL,
        artifact2destination at the resolver *)
 
@@ -76,37 +78,38 @@ Inductive case :=
 | KArtRaw (sm : sourcemap) (art : string) (dest : ares)
 | KArtFed (sha : list (string * string)) (steps : list fstep).
 
-(* the model follows the steps with its own self.sourceid *)
-Fixpoint fed_agrees (sha : string -> string) (sm : fsourcemap) (steps : list fstep) : bool :=
+(* the model follows the steps with its own self.sourceid per resolver *)
+Fixpoint fed_agrees (sha : string -> string) (st : list (nat * fsourcemap)) (steps : list fstep) : bool :=
   match steps with
   | [] => true
-  | FLoad fed obs :: r => let m := store_source_id sha fed in fsm_eqb m obs && fed_agrees sha m r
-  | FResolve eid h idx ro art dest :: r =>
+  | FLoad rcv cfg obs :: r =>
+      let m := store_source_id sha (store_load cfg) in fsm_eqb m obs && fed_agrees sha ((rcv, m) :: st) r
+  | FResolve rcv eid h idx ro art dest :: r =>
       String.eqb (create_artifact sha eid h idx) art
-      && ares_eqb (artifact2destination (project ro sm) art) dest
-      && fed_agrees sha sm r
+      && ares_eqb (artifact2destination (project ro (fed_of st rcv)) art) dest
+      && fed_agrees sha st r
   end.
 
 Definition fres_of (cur : federation) (eid : string) (idx : nat) (ro : role) : fres_in :=
   {| f_fed := cur; f_eid := eid; f_idx := idx; f_role := ro |}.
 
-(* every resolution is judged against the documents loaded most recently *)
-Fixpoint fed_holds (cur : federation) (steps : list fstep) : bool :=
+(* every resolution is judged against the documents its resolver has loaded most recently *)
+Fixpoint fed_holds (st : list (nat * federation)) (steps : list fstep) : bool :=
   match steps with
   | [] => true
-  | FLoad fed _ :: r => fed_holds fed r
-  | FResolve eid _ idx ro _ dest :: r => artfed_spec_b (fres_of cur eid idx ro) dest && fed_holds cur r
+  | FLoad rcv cfg _ :: r => fed_holds ((rcv, cfg_docs cfg) :: st) r
+  | FResolve rcv eid _ idx ro _ dest :: r => artfed_spec_b (fres_of (fed_of st rcv) eid idx ro) dest && fed_holds st r
   end.
 
 (* classes of the failing resolutions *)
-Fixpoint fed_classes (cur : federation) (steps : list fstep) : list nat :=
+Fixpoint fed_classes (st : list (nat * federation)) (steps : list fstep) : list nat :=
   match steps with
   | [] => []
-  | FLoad fed _ :: r => fed_classes fed r
-  | FResolve eid _ idx ro _ dest :: r =>
-      let x := fres_of cur eid idx ro in
+  | FLoad rcv cfg _ :: r => fed_classes ((rcv, cfg_docs cfg) :: st) r
+  | FResolve rcv eid _ idx ro _ dest :: r =>
+      let x := fres_of (fed_of st rcv) eid idx ro in
       (if artfed_spec_b x dest then [] else [if idx_ok idx then (if spelling_ok x then 0 else 6) else 1])
-      ++ fed_classes cur r
+      ++ fed_classes st r
   end.
 
 Definition pairs_eqb := attrs_eqb.
@@ -192,13 +195,16 @@ Inductive shown :=
 | SFed (l : list (nat + (ares * bool))).
 
 (* per step: size of the model's SourceID table after a load; model result and spec verdict of a resolution *)
-Fixpoint fed_shown (sha : string -> string) (cur : federation) (sm : fsourcemap) (steps : list fstep)
+Fixpoint fed_shown (sha : string -> string) (cur : list (nat * federation)) (st : list (nat * fsourcemap)) (steps : list fstep)
   : list (nat + (ares * bool)) :=
   match steps with
   | [] => []
-  | FLoad fed _ :: r => let m := store_source_id sha fed in inl (length m) :: fed_shown sha fed m r
-  | FResolve eid h idx ro art dest :: r =>
-      inr (artifact2destination (project ro sm) art, artfed_spec_b (fres_of cur eid idx ro) dest) :: fed_shown sha cur sm r
+  | FLoad rcv cfg _ :: r =>
+      let m := store_source_id sha (store_load cfg) in
+      inl (length m) :: fed_shown sha ((rcv, cfg_docs cfg) :: cur) ((rcv, m) :: st) r
+  | FResolve rcv eid h idx ro art dest :: r =>
+      inr (artifact2destination (project ro (fed_of st rcv)) art, artfed_spec_b (fres_of (fed_of cur rcv) eid idx ro) dest)
+      :: fed_shown sha cur st r
   end.
 
 Definition explain (c : case) : shown * bool * bool * nat :=
